@@ -92,10 +92,10 @@ ITEMS = [
                   '(self is Nil || self is False) ==> default.ensures((), r)',
                   '!(self is Unknown || self is Nil || self is False) ==> map.ensures((self,), r)'],
          desc='`a or b` folding for EVERY value and EVERY pair of closures: Unknown stays Unknown; truthy -> map(self); falsy -> default()'),
-    dict(file='src/generator/utils.rs', kind='fn', name='needs_escaping', props=['C13', 'C14'],
+    dict(file='src/generator/utils.rs', kind='fn', name='needs_escaping', props=['C13', 'C14', 'C02'],
          ensures=['must_escape_in_quotes(character) ==> r'],
          desc='for ALL 256 bytes: backslash, newline, carriage return and every byte >= 0x80 need an escape in a quoted literal'),
-    dict(file='src/generator/utils.rs', kind='fn', name='needs_quoted_string', props=['C13', 'C14'],
+    dict(file='src/generator/utils.rs', kind='fn', name='needs_quoted_string', props=['C13', 'C14', 'C02'],
          ensures=['*character == 0x0Du8 ==> r'],
          desc='for ALL 256 bytes: a carriage return can not be written raw inside a long bracket'),
     dict(file='src/process/evaluator/mod.rs', kind='fn', impl='Evaluator', name='maybe_metatable', props=['C08'],
